@@ -509,10 +509,20 @@ func runFilter(in []int64) []int64 {
 	infVC.ClearActions()
 	type made struct{ ns, name string }
 	var cmds []made
-	mk := func(name string, tk, tv, ns, tn, act int64) {
+	mk := func(name string, tk, tv, ns, tn, act, owner int64) {
 		c := &bus.Command{ObjectMeta: metav1.ObjectMeta{Namespace: fmt.Sprintf("ns%d", ns), Name: name}, Action: string(actions[act])}
 		if tk != 0 {
 			c.TargetObject = &metav1.OwnerReference{APIVersion: apiVersions[tv], Kind: kinds[tk], Name: fmt.Sprintf("n%d", tn)}
+		}
+		// the controller OWNER of the Command need not be its target (a Command written by hand)
+		ctl := true
+		switch owner {
+		case 1:
+			c.OwnerReferences = []metav1.OwnerReference{{APIVersion: apiVersions[1], Kind: "Job", Name: fmt.Sprintf("n%d", tn), UID: "o1", Controller: &ctl}}
+		case 2:
+			c.OwnerReferences = []metav1.OwnerReference{{APIVersion: apiVersions[2], Kind: "Queue", Name: fmt.Sprintf("n%d", tn), UID: "o2", Controller: &ctl}}
+		case 3:
+			c.OwnerReferences = []metav1.OwnerReference{{APIVersion: apiVersions[3], Kind: "Queue", Name: fmt.Sprintf("n%d", tn), UID: "o3", Controller: &ctl}}
 		}
 		if _, err := infVC.BusV1alpha1().Commands(c.Namespace).Create(ctx, c, metav1.CreateOptions{}); err != nil {
 			panic(err)
@@ -520,13 +530,13 @@ func runFilter(in []int64) []int64 {
 		cmds = append(cmds, made{c.Namespace, name})
 	}
 	for i := 0; i < n; i++ {
-		f := in[1+5*i : 6+5*i]
-		mk(fmt.Sprintf("%si%d", pre, i), f[0], f[1], f[2], f[3], f[4])
+		f := in[1+6*i : 7+6*i]
+		mk(fmt.Sprintf("%si%d", pre, i), f[0], f[1], f[2], f[3], f[4], f[5])
 	}
 	// sentinels: informer notifications are ordered, so once they sit in the command
 	// queues every earlier Command has passed (or not passed) the filters
-	mk(pre+"sj", 1, 1, 1, 0, 1)
-	mk(pre+"sq", 2, 2, 1, 0, 3)
+	mk(pre+"sj", 1, 1, 1, 0, 1, 1)
+	mk(pre+"sq", 2, 2, 1, 0, 3, 2)
 	deadline := time.Now().Add(20 * time.Second)
 	for {
 		okQ, okJ := false, false
@@ -550,11 +560,21 @@ func runFilter(in []int64) []int64 {
 	}
 	// the job controller shards its requests over several worker queues: read them back
 	// after every processed Command to keep the order of execution
+	// a worker that crashes on a Command it should never have admitted (e.g. nil TargetObject) has
+	// already deleted it: keep draining so that the Delete shows up in law 104 instead of a bare panic
+	safely := func(f func() bool) (more bool) {
+		defer func() {
+			if recover() != nil {
+				more = true
+			}
+		}()
+		return f()
+	}
 	var jreqs []apis.Request
-	for jobCtl.VerifCmdProcessNext() {
+	for safely(jobCtl.VerifCmdProcessNext) {
 		jreqs = append(jreqs, jobCtl.VerifCmdRequests()...)
 	}
-	for queueCtl.ProcessNextCommand() {
+	for safely(queueCtl.ProcessNextCommand) {
 	}
 	// Delete calls per Command
 	dels := map[string]int{}
@@ -966,8 +986,17 @@ func genFilter(rng *vh.Rng, n int, emit func(id string, sel int, in []int64, kin
 			if !(tk == tv && (tk == 1 || tk == 2)) {
 				foreign++
 			}
+			// the controller owner: what vcctl writes (= the target), or something else — a Queue owning a
+			// Command that targets a Job, a Job owning one that targets a Queue, a foreign owner, none
+			owner := int64(0)
+			if tk == tv && (tk == 1 || tk == 2) {
+				owner = tk
+			}
+			if r.Chance(1, 2) {
+				owner = int64(r.Range(0, 3))
+			}
 			// target names from a small pool: a foreign Command often names an object an exact one names too
-			in = append(in, tk, tv, int64(r.Range(1, 3)), int64(r.Range(1, 4)), int64(r.Range(1, 4)))
+			in = append(in, tk, tv, int64(r.Range(1, 3)), int64(r.Range(1, 4)), int64(r.Range(1, 4)), owner)
 		}
 		emit(fmt.Sprintf("filter-%d", i), 4, in, "informer-filter", foreign > 0, map[string]any{"commands": k, "foreign": foreign})
 	}
